@@ -4,6 +4,11 @@
 #include "vf.hpp"
 #include <cmath>
 #include <memory>
+#if defined(__has_feature)
+#if __has_feature(address_sanitizer)
+#include <sanitizer/asan_interface.h>
+#endif
+#endif
 extern "C" {
 #include <pixman.h>
 }
@@ -237,13 +242,22 @@ struct Buf {
   Buf &operator=(const Buf &) = delete;
   // mode 0: malloc of exactly `size` bytes (ASan red zones); 1: end of buffer flush against a PROT_NONE page;
   // 2: start of buffer right after a PROT_NONE page
-  void alloc(size_t n, int mode) {
+  void alloc(size_t n, int mode, int al = 0) {
     release();
     size = n;
     if (n == 0) n = 4;
     if (mode == 0) {
-      mal = (uint8_t *)malloc(n);
-      p = mal;
+      // exact size, at a chosen address modulo 64 so that a case replays with the same alignment
+      al &= 60;
+      size_t tot = ((n + (size_t)al + 63) / 64) * 64;
+      mal = (uint8_t *)aligned_alloc(64, tot);
+      p = mal + al;
+#if defined(__has_feature)
+#if __has_feature(address_sanitizer)
+      __asan_poison_memory_region(mal, (size_t)al);
+      __asan_poison_memory_region(p + n, tot - (size_t)al - n);
+#endif
+#endif
       return;
     }
     size_t pg = 4096, body = (n + pg - 1) / pg * pg;
@@ -261,6 +275,11 @@ struct Buf {
     else p = map + pg;
   }
   void release() {
+#if defined(__has_feature)
+#if __has_feature(address_sanitizer)
+    if (mal) __asan_unpoison_memory_region(mal, ((size + (size_t)(p - mal) + 63) / 64) * 64);
+#endif
+#endif
     if (mal) free(mal);
     if (map) munmap(map, maplen);
     mal = map = p = nullptr;
@@ -278,6 +297,7 @@ struct Bits {
   int fence = 0;      // Buf mode
   int fill = 0;       // fill mode
   uint64_t seed = 0;  // content
+  int al = 0;         // malloc mode: address of the first byte modulo 64 (vector / cache-line tiling code depends on it)
   template <class A> void io(A &a) {
     a.f("fmt", fmt);
     a.f("w", w);
@@ -287,6 +307,7 @@ struct Bits {
     a.f("fence", fence);
     a.f("fill", fill);
     a.f("seed", seed);
+    a.f("al", al);
   }
   pixman_format_code_t code() const { return FORMATS[fmt].code; }
   int stride() const {  // magnitude, bytes (rgba_float rows must be a multiple of 16 bytes: documented precondition of create_bits)
@@ -401,7 +422,7 @@ inline std::unique_ptr<Image> make_image(const Bits &d) {
   I->d = d;
   pixman_format_code_t f = d.code();
   size_t n = d.bytes();
-  I->buf.alloc(n, d.fence);
+  I->buf.alloc(n, d.fence, d.al);
   int st = d.stride();
   Mix mx(d.seed);
   // every byte gets garbage first (row padding is not pixel data)
@@ -460,6 +481,7 @@ inline Bits gen_bits(int fmt, int maxw, int maxh) {
   b.fence = pickw({6, 2, 1});
   b.fill = pickw({4, 4, 2, 3, 1, 1, 1});
   b.seed = seed64();
+  b.al = (int)R(0, 15) * 4;
   return b;
 }
 
